@@ -10,13 +10,14 @@ import json, os, re, subprocess, sys, glob, time
 
 ROOT = os.path.dirname(os.path.dirname(os.path.abspath(__file__)))
 ENV = dict(os.environ, GOFLAGS="-mod=mod", GOPROXY="off", GOPRIVATE="*")
+REPO = os.environ.get("VERIF_REPO", "/repo")   # a scratch worktree of /repo when the self-test runs beside other work
 
 def sh(cmd, cwd=None, timeout=7200):
     p = subprocess.run(cmd, shell=True, cwd=cwd, env=ENV, capture_output=True, text=True, timeout=timeout)
     return p.returncode, p.stdout + p.stderr
 
 def clean():
-    rc, out = sh("git -C /repo status --porcelain")
+    rc, out = sh("git -C %s status --porcelain" % REPO)
     return out.strip() == ""
 
 def run_checks(ids):
@@ -45,14 +46,14 @@ def main():
                 continue
             m = json.load(open(os.path.join(d, "meta.json")))
             ids = m.get("detected_by") or [m["property"]]
-            rc, out = sh("git -C /repo apply %s" % os.path.join(d, "patch.diff"))
+            rc, out = sh("git -C %s apply %s" % (REPO, os.path.join(d, "patch.diff")))
             if rc != 0:
                 results.append(dict(kind="seeded", name=name, error="patch does not apply: " + out[-200:]))
                 continue
             try:
                 r = run_checks(ids)
             finally:
-                sh("git -C /repo checkout -- . && git -C /repo clean -fdq")
+                sh("git -C %s checkout -- . && git -C %s clean -fdq" % (REPO, REPO))
             ok = all(v["rc"] == 1 for v in r.values())
             results.append(dict(kind="seeded", name=name, checks=r, detected=ok))
             print("%-55s %s %s" % (name, "DETECTED" if ok else "MISSED  ", {k: v["rc"] for k, v in r.items()}), flush=True)
@@ -65,7 +66,7 @@ def main():
             prop, commit, what = mm.groups()
             if only and only not in commit and only not in prop:
                 continue
-            rc, out = sh("git -C /repo show %s -- . ':!*_test.go' | git -C /repo apply -R" % commit)
+            rc, out = sh("git -C %s show %s -- . ':!*_test.go' | git -C %s apply -R" % (REPO, commit, REPO))
             if rc != 0:
                 results.append(dict(kind="fix", name=commit, property=prop, error="cannot reverse-apply (later commits touch the same lines): " + out[-200:]))
                 print("%-55s %s" % (commit + " " + prop, "NOT-REVERSIBLE"), flush=True)
@@ -73,7 +74,7 @@ def main():
             try:
                 r = run_checks([prop])
             finally:
-                sh("git -C /repo checkout -- . && git -C /repo clean -fdq")
+                sh("git -C %s checkout -- . && git -C %s clean -fdq" % (REPO, REPO))
             ok = all(v["rc"] == 1 for v in r.values())
             results.append(dict(kind="fix", name=commit, property=prop, what=what[:120], checks=r, detected=ok))
             print("%-55s %s %s" % (commit + " " + prop, "DETECTED" if ok else "MISSED  ", {k: v["rc"] for k, v in r.items()}), flush=True)
